@@ -13,76 +13,20 @@ from the two energy integrals (`alphaCode`, `eval1`, `eval2`), so the statement 
 "the normalisation chosen by the code makes the energy integral equal to eblast at every
 time, whatever the similarity functions are".  What is NOT proved here: that the traced
 f, g, h of `sedov_funcs_standard` satisfy the mass identity ∫ g λ^(k-1) = (γ-1)/((γ+1)(k-ω))
-(stated as the remaining obligation in `sedov_mass_iff`), and the change of variables
+(stated as the remaining obligation in `sedov_mass_iff_partial`), and the change of variables
 v ↔ λ with its endpoint singularity that turns `quad(efun01, vmin, v2)` into the λ-space
 integral (a hypothesis of `sedov_eval_of_substitution_partial`).
 -/
-import EPV.Gen.SedovShock
+import EPV.Lemmas.SedovFields
 import EPV.Spec.Sedov
-import EPV.Lemmas.Sedov
-import EPV.Tactics
 
 set_option linter.all false
 
-open EPV EPV.Gen EPV.Spec.Sedov EPV.Lemmas.Sedov MeasureTheory
+open EPV EPV.Gen EPV.Spec.Sedov EPV.Lemmas.Sedov EPV.Sedov MeasureTheory
 
 namespace EPV.C11
 
 noncomputable section
-
-/-- first energy integral in λ-space: ∫₀¹ g f² λ^(k-1) dλ (kinetic) -/
-def J1 (k : ℕ) (f g : ℝ → ℝ) : ℝ := ∫ x in (0:ℝ)..1, g x * f x ^ 2 * x ^ (k - 1)
-/-- second energy integral in λ-space: ∫₀¹ h λ^(k-1) dλ (internal) -/
-def J2 (k : ℕ) (h : ℝ → ℝ) : ℝ := ∫ x in (0:ℝ)..1, h x * x ^ (k - 1)
-
-/-- `eval1` of `__init__` after the substitution λ = λ(v): `efun01 = dλ/dv · λ^(k+1) · gpogm · g · v²`
-with f = a_val·v·λ, a_val = xg2·gamp1/4, gpogm = (γ+1)/(γ-1)  (see `efun01_pullback`) -/
-def eval1 (k : ℕ) (γ ω : ℝ) (f g : ℝ → ℝ) : ℝ :=
-  ((γ + 1) / (γ - 1)) / ((1 / 4) * ((k : ℝ) + 2 - ω) * (γ + 1)) ^ 2 * J1 k f g
-/-- `eval2` of `__init__` after the substitution: `efun02 = dλ/dv · λ^(k-1) · h · 8/((k+2-ω)²(γ+1))` -/
-def eval2 (k : ℕ) (γ ω : ℝ) (h : ℝ → ℝ) : ℝ :=
-  8 / (((k : ℝ) + 2 - ω) ^ 2 * (γ + 1)) * J2 k h
-
-/-- `alpha` as `__init__` computes it from eval1, eval2 (sedov.py:176-180) -/
-def alphaCode (kr γ e1 e2 : ℝ) : ℝ :=
-  if kr = 1 then (1 / 2) * e1 + e2 / (γ - 1) else (kr - 1) * Real.pi * (e1 + 2 * e2 / (γ - 1))
-
-/-- the fields `_run` returns behind the shock at time t, for similarity functions f, g, h -/
-def density (p : SedovShock.P) (g : ℝ → ℝ) (t r : ℝ) : ℝ := SedovShock.rho2 p t * g (r / SedovShock.r2 p t)
-def velocity (p : SedovShock.P) (f : ℝ → ℝ) (t r : ℝ) : ℝ := SedovShock.u2 p t * f (r / SedovShock.r2 p t)
-def pressure (p : SedovShock.P) (h : ℝ → ℝ) (t r : ℝ) : ℝ := SedovShock.p2 p t * h (r / SedovShock.r2 p t)
-
-/-- the generated model has the leaves the theorems cover: NaN for t ≤ 0, one ok leaf -/
-theorem shock_leaves : SedovShock.okLeaves = [1] ∧ SedovShock.nLeaves = 2 := ⟨rfl, rfl⟩
-
-/-- admissible Sedov problem (documented restrictions) with geometry k ∈ {1,2,3} -/
-structure Admissible (p : SedovShock.P) (k : ℕ) : Prop where
-  hk : k = 1 ∨ k = 2 ∨ k = 3
-  geo : p.geometry = k
-  gamma : 1 < p.gamma
-  rho0 : 0 < p.rho0
-  eblast : 0 < p.eblast
-  omega0 : 0 ≤ p.omega
-  omegak : p.omega < k
-  alpha : 0 < p.alpha
-
-theorem Admissible.xg2_pos {p : SedovShock.P} {k : ℕ} (A : Admissible p k) :
-    0 < p.geometry + 2 - p.omega := by
-  have := A.omegak; have := A.geo; linarith
-
-theorem Admissible.a_pos {p : SedovShock.P} {k : ℕ} (A : Admissible p k) :
-    0 < p.eblast / (p.alpha * p.rho0) := div_pos A.eblast (mul_pos A.alpha A.rho0)
-
-theorem r2_pos {p : SedovShock.P} {k : ℕ} (A : Admissible p k) {t : ℝ} (ht : 0 < t) :
-    0 < SedovShock.r2 p t := by
-  simp only [epv_tree, epv_cond, not_le.mpr ht, if_false, epv_leaf]
-  exact EPV.Lemmas.Sedov.r2_pos _ _ _ A.a_pos ht
-
-/-- the scaling law: r2(t)^(k+2-ω) = E t² / (α ρ₀) -/
-theorem r2_rpow_xg2 {p : SedovShock.P} {k : ℕ} (A : Admissible p k) {t : ℝ} (ht : 0 < t) :
-    SedovShock.r2 p t ^ (p.geometry + 2 - p.omega) = p.eblast / (p.alpha * p.rho0) * t ^ 2 := by
-  simp only [epv_tree, epv_cond, not_le.mpr ht, if_false, epv_leaf]
-  exact r2_rpow _ _ _ A.a_pos ht A.xg2_pos.ne'
 
 /-- **C11, energy (full strength).**  For every geometry k ∈ {1,2,3}, γ > 1, ρ₀ > 0, E > 0,
 0 ≤ ω < k, every t > 0 and ARBITRARY similarity functions f, g, h (with the two energy
@@ -195,7 +139,7 @@ held inside the shock radius IF AND ONLY IF the density similarity function sati
 ∫₀¹ g λ^(k-1) dλ = (γ-1)/((γ+1)(k-ω)).  That integral identity for the traced `g_fun` of
 `sedov_funcs_standard` is the remaining obligation (a growth target; checked numerically by
 the oracle `o_sedov.mass`). -/
-theorem sedov_mass_iff (p : SedovShock.P) (k : ℕ) (A : Admissible p k) (g : ℝ → ℝ) (t : ℝ) (ht : 0 < t) :
+theorem sedov_mass_iff_partial (p : SedovShock.P) (k : ℕ) (A : Admissible p k) (g : ℝ → ℝ) (t : ℝ) (ht : 0 < t) :
     MassConserved k p.rho0 p.omega (density p g t) (SedovShock.r2 p t)
       ↔ ∫ x in (0:ℝ)..1, g x * x ^ (k - 1) = (p.gamma - 1) / ((p.gamma + 1) * ((k : ℝ) - p.omega)) := by
   have hRpos := r2_pos A ht
